@@ -78,8 +78,9 @@ type pendingControlRequest struct {
 }
 
 // forwardedControlRequest tracks a request we forwarded so we can route the response back.
+// It is stored under the locally allocated ID the request was forwarded with.
 type forwardedControlRequest struct {
-	RequestID  uint64
+	RequestID  uint64           // ID chosen by the requester, restored in the response
 	SourcePeer identity.AgentID // Peer who sent us the request
 	CreatedAt  time.Time
 }
@@ -165,7 +166,7 @@ type Agent struct {
 	// Control request tracking
 	controlMu        sync.RWMutex
 	pendingControl   map[uint64]*pendingControlRequest   // Request ID -> pending request (for requests we initiated)
-	forwardedControl map[uint64]*forwardedControlRequest // Request ID -> source peer (for requests we forwarded)
+	forwardedControl map[uint64]*forwardedControlRequest // Locally allocated forward ID -> source peer + original ID (for requests we forwarded)
 	nextControlID    uint64
 
 	// Route advertisement trigger channel
@@ -2410,9 +2411,15 @@ func (a *Agent) handleControlRequest(peerID identity.AgentID, frame *protocol.Fr
 			return
 		}
 
-		// Track this forwarded request so we can route the response back
+		// Track this forwarded request so we can route the response back.
+		// The requester's ID is only unique per requesting agent, so two agents
+		// routinely use the same ID through one transit. Forward the request
+		// under an ID from our own counter (the one that also numbers locally
+		// initiated requests) and restore the original ID on the way back.
 		a.controlMu.Lock()
-		a.forwardedControl[req.RequestID] = &forwardedControlRequest{
+		a.nextControlID++
+		fwdID := a.nextControlID
+		a.forwardedControl[fwdID] = &forwardedControlRequest{
 			RequestID:  req.RequestID,
 			SourcePeer: peerID,
 			CreatedAt:  time.Now(),
@@ -2427,7 +2434,7 @@ func (a *Agent) handleControlRequest(peerID identity.AgentID, frame *protocol.Fr
 			"source_peer", peerID.ShortString())
 
 		fwdReq := &protocol.ControlRequest{
-			RequestID:   req.RequestID,
+			RequestID:   fwdID,
 			ControlType: req.ControlType,
 			TargetAgent: req.TargetAgent,
 			Path:        remainingPath,
@@ -2444,7 +2451,7 @@ func (a *Agent) handleControlRequest(peerID identity.AgentID, frame *protocol.Fr
 				logging.KeyPeerID, nextHop.ShortString(),
 				logging.KeyError, err)
 			a.controlMu.Lock()
-			delete(a.forwardedControl, req.RequestID)
+			delete(a.forwardedControl, fwdID)
 			a.controlMu.Unlock()
 			a.sendControlResponse(peerID, req.RequestID, req.ControlType, false, []byte("failed to forward: "+err.Error()))
 		}
@@ -2519,6 +2526,8 @@ func (a *Agent) handleControlResponse(peerID identity.AgentID, frame *protocol.F
 
 	if hasForwarded {
 		// We forwarded this request, route response back to source peer
+		// under the ID the requester chose.
+		resp.RequestID = forwarded.RequestID
 		a.logger.Debug("forwarding control response",
 			"to", forwarded.SourcePeer.ShortString(),
 			"request_id", resp.RequestID)
